@@ -52,6 +52,18 @@ func samePathDifferentBytes(p *pair, oa, ob *L.Opt) []sameNameDiff {
 		}
 		out = append(out, sameNameDiff{k, L.ClassifyDiff(k, p.a.Outputs[k], vb, oa, ob)})
 	}
+	// the source map of a chunk hit by the import-order finding differs too (the
+	// swapped paths have different lengths, so the columns after them move): it
+	// is the same finding seen in the sibling file, and only then
+	for i := range out {
+		if strings.HasSuffix(out[i].Path, ".map") && strings.HasPrefix(out[i].Class, "other") {
+			for _, d := range out {
+				if d.Path+".map" == out[i].Path && d.Class == "import-order-swapped" {
+					out[i].Class = "import-order-swapped"
+				}
+			}
+		}
+	}
 	return out
 }
 
@@ -114,6 +126,11 @@ func checkPair(st *Stats, edit string, pa, pb *L.Project, hashed bool) (bool, bo
 		}
 		for _, ur := range L.Unresolved(bl, proj.Opt.PublicPath) {
 			st.Fail("reference-does-not-name-an-emitted-file", map[string]interface{}{"scenario": "dangling-reference/" + ur.Kind, "edit": edit, "project": proj, "ref": ur, "emitted": bl.Paths()}, ur.Spec, "a path of this build's outputs")
+		}
+		for _, path := range bl.Paths() {
+			if errs := parseErrors(path, bl.Outputs[path]); len(errs) > 0 {
+				st.Fail("emitted-file-does-not-parse", map[string]interface{}{"scenario": "syntax", "edit": edit, "project": proj, "path": path}, errs, "valid syntax")
+			}
 		}
 		planted := proj.PlantedList()
 		for _, path := range bl.Paths() {
